@@ -304,7 +304,9 @@ func runCheck(prop, tier, repo, evdir string, verbose bool) int {
 	sem := make(chan struct{}, 12)
 	for i, j := range jobs {
 		if j.ikey != "" {
+			eng.RefineDrop = func(n string) bool { return mnc(n) != nil || matchKnown(known, prop, n) != nil }
 			f := eng.GenRefinementVC(j.ikey, j.ict, j.fn, j.ifT)
+			eng.RefineDrop = nil
 			results[i].f = f
 			if f.Unsupported != "" || f.ContractErr != "" {
 				continue
